@@ -5,6 +5,16 @@ ROOT = os.path.join(os.path.dirname(os.path.abspath(__file__)), "..")
 props = [json.loads(l) for l in open(os.path.join(ROOT, "properties.jsonl")) if l.strip()]
 
 CLAIMS = {
+    "C02": dict(
+        text="Lean 4 theorems relating the model of the crate's encoder to an independently written RFC reference (own item tree, own head writer with shifts, field order from RFC 9171 §4.3.1/§4.3.2, catalogue-parameter CRC): primary_layout / canonical_layout (every block = definite array of its RFC fields in order + CRC byte string iff present — unconditional), encode_eq_spec_nocrc (whole-bundle byte equality, unconditional when no block carries a CRC), encode_eq_spec_partial (whole-bundle byte equality for every well-formed bundle GIVEN agreement of the two CRC definitions). The reference is pinned by kernel evaluation to the RFC 9173 A.1 primary/payload hex vectors and to the crate's documented golden bundle (CRC-16 0f56). Tie to the code: for every generated bundle the implementation's bytes are compared with the REFERENCE encoder's bytes through the driver (`spec.enc`), a difference being a property failure with the bundle as replay.",
+        note="PARTIAL in one respect: CrcAgree (reflected bit-serial CRC = catalogue-parameter MSB-first CRC for all inputs) is a hypothesis of the whole-bundle theorem for CRC-carrying bundles; it is established by check values and by the crc16/crc32 correspondence ops, not by proof. Trusted: Lean kernel; axioms propext, Classical.choice, Quot.sound; my reading of RFC 9171/8949 in Spec/*.",
+        technique="Lean 4 proof (refinement of the code-shaped writer to an RFC item-tree encoder) + byte-exact differential check against the reference",
+        design="§6 C02"),
+    "C03": dict(
+        text="Lean 4 theorems stated from the peer's side (input bytes = reference encoder output, CRC values = the peer's): decode_spec_partial — every conformant bundle is accepted, the decoded bundle equals the encoded one in every field/EID/block/data (CRC values being those on the wire), passes crcValid and re-encodes to the received bytes, given CrcAgree; decode_spec_nocrc — the same unconditionally for CRC-less bundles; golden_decodes — the documented golden bundle taken as received bytes. Corollaries of C01 + C02 + C04. Tie to the code: the harness obtains the bytes from the Lean reference encoder through the driver, feeds THOSE bytes to the real Bundle::try_from, compares the decoded value with the reference's abstract bundle, runs crc_valid and re-encodes.",
+        note="Inherits C02's hypothesis CrcAgree for CRC-carrying bundles (established by correspondence, not proof). Trusted: Lean kernel; axioms propext, Classical.choice, Quot.sound.",
+        technique="Lean 4 proof (corollary of round trip + encoder refinement) + differential check on reference-encoded input",
+        design="§6 C03"),
     "C14": dict(
         text="PARTIAL. Lean 4 theorems about an ownership-ledger model of src/ffi.rs (every Box::into_raw / forgotten boxed slice / CString::into_raw is an allocation, every from_raw a release): null_on_invalid (a buffer that does not decode to a valid bundle yields null and leaves the ledger untouched), ffi_ledger_balanced (after ANY call sequence, once every handle handed out has been released by its documented free function no allocation remains live — by an invariant relating the ledger to the object table, preserved by every FFI function), and the pinned frees are shown to leak (pinned_leaks). Tie to the code: the real extern \"C\" functions are called in-process on generated call sequences (valid, mutated, random, empty buffers; queries and frees in random order) under a counting global allocator; returned metadata / payload / validity / re-encoding are compared with the model and with the Rust API, and the net live allocation count after complete protocols with the model's ledger; a process abort inside an FFI call is reported with the op line being executed.",
         note="NOT covered by the model or any theorem: spatial memory safety inside ffi.rs (reads/writes outside allocations, use-after-free) — the ledger cannot express it; the harness exercises the real code but does not run under AddressSanitizer. Buffers longer than u32::MAX are outside the model. Trusted: Lean kernel; axioms propext, Quot.sound; the counting allocator.",
